@@ -925,7 +925,13 @@ func (st *State) freshVal(prefix string, t types.Type) SVal {
 	if len(ls) != 1 {
 		st.unsupported("freshVal: type %s", typeKey(t))
 	}
-	return st.fresh(prefix, ls[0].Sort)
+	v := st.fresh(prefix, ls[0].Sort)
+	if b, ok := t.Underlying().(*types.Basic); ok && b.Info()&types.IsInteger != 0 {
+		if lo, hi, ok := intRange(t); ok && (b.Info()&types.IsUnsigned != 0 || st.u.c.Checked) {
+			st.assume(And(Ge(v, lo), Le(v, hi)))
+		}
+	}
+	return v
 }
 
 func (st *State) zeroVal(t types.Type) SVal {
